@@ -347,7 +347,6 @@ func visitInstr(fr *frame, instr ssa.Instruction) continuation {
 		i.sched.spawn(name, func() {
 			call(i, nil, pos, fn, args)
 		})
-		i.sched.schedPoint("go")
 
 	case *ssa.MakeChan:
 		n := i.concInt(fr.get(instr.Size))
@@ -628,8 +627,18 @@ func callSSA(i *interpreter, caller *frame, callpos token.Pos, fn *ssa.Function,
 	for i, fv := range fn.FreeVars {
 		fr.env[fv] = env[i]
 	}
+	var th *thread
+	var prevTop *frame
+	if i.sched != nil && i.sched.cur != nil {
+		th = i.sched.cur
+		prevTop = th.top
+		th.top = fr
+	}
 	for fr.block != nil {
 		runFrame(fr)
+	}
+	if th != nil {
+		th.top = prevTop
 	}
 	return fr.result
 }
